@@ -2,7 +2,7 @@
 """partest.py [-j N] [--props C01,C02|all|own] <stored seeded name>...
 Runs the quick checks against stored seeded changes (breaking or harmless) WITHOUT touching /repo: each
 change is applied to its own scratch worktree of /repo's HEAD under /tmp/pt/<name>, and the checks are pointed
-at it through the REPO environment variable (honoured by implrun.py and fingerprint.py; the registered
+at it through the VERIF_REPO environment variable (honoured by implrun.py and fingerprint.py; the registered
 commands never set it, so they always check /repo itself).  Several changes run side by side.  Development aid."""
 import concurrent.futures
 import json
@@ -27,7 +27,7 @@ def one(name, props):
     r = sh(f"git -C /repo worktree add -q --detach {wt} HEAD && git -C {wt} apply {d}/patch.diff")
     if r.returncode != 0:
         return name, {"error": r.stderr[-300:]}
-    env = dict(os.environ, REPO=wt, VERIF_EVIDENCE_DIR=os.path.join(V, ".work", "evidence-pt-" + name))
+    env = dict(os.environ, VERIF_REPO=wt, VERIF_EVIDENCE_DIR=os.path.join(V, ".work", "evidence-pt-" + name))
     if props == "own":
         plist = [meta["property"]] if "property" in meta else ALL
     else:
